@@ -435,6 +435,79 @@ func metaGet(m arrow.Metadata, k string) (string, bool) {
 }
 
 // ---------------------------------------------------------------------------
+// Arm D (domain probe): data batches (rows > 0) whose OWN custom metadata, or
+// whose schema-level metadata, uses the framework's marker keys. The statement
+// quantifies over all metadata; MaybeExternalizeBatch accepts such batches, so
+// they are inside the domain. A batch with rows is data, whatever its keys.
+
+func armMarkerProbe(e *env, n int) {
+	r := e.r
+	type variant struct {
+		where, key, val string
+	}
+	variants := []variant{
+		{"batch", vgirpc.MetaLogLevel, "INFO"}, {"batch", vgirpc.MetaLogLevel, "EXCEPTION"}, {"batch", vgirpc.MetaLogLevel, ""},
+		{"batch", vgirpc.MetaLocation, "https://elsewhere.invalid/x"}, {"batch", vgirpc.MetaLocationSHA256, "00"},
+		{"schema", vgirpc.MetaLogLevel, "INFO"}, {"schema", vgirpc.MetaLocation, "https://elsewhere.invalid/x"},
+	}
+	for i := 0; i < n; i++ {
+		rng := r.Rand(4, uint64(i))
+		v := variants[i%len(variants)]
+		schema := gen.Schema(rng, gen.SchemaOpt{MaxCols: 3, MinCols: 1, Nested: i%2 == 0, Dict: i%2 == 0})
+		withBatchMeta := v.where == "batch" || (i/len(variants))%2 == 0
+		if v.where == "schema" {
+			md := arrow.NewMetadata([]string{"pandas", v.key}, []string{"{}", v.val})
+			schema = arrow.NewSchema(schema.Fields(), &md)
+		}
+		rec := gen.Batch(rng, schema, gen.BatchOpt{Rows: 1 + rng.IntN(20), FixedRows: true})
+		switch {
+		case v.where == "batch":
+			rec = gen.WithMeta(rec, []string{"user.key", v.key}, []string{"v", v.val})
+		case withBatchMeta:
+			rec = gen.WithMeta(rec, []string{"user.key"}, []string{"v"})
+		}
+		var comp *vgirpc.Compression
+		if i%3 == 1 {
+			comp = &vgirpc.Compression{Algorithm: "zstd", Level: 1}
+		}
+		cfg := e.config(1, comp)
+		want := canonFull(rec)
+		w := rtWitness{Case: i, Schema: gen.SchemaFingerprint(schema), Rows: rec.NumRows(), Threshold: 1, Original: want,
+			Compression: fmt.Sprintf("marker key %q=%q in %s metadata (batch has own custom metadata: %v)", v.key, v.val, v.where, withBatchMeta)}
+		outB, outM, err := vgirpc.MaybeExternalizeBatch(rec, arrow.Metadata{}, cfg)
+		if err != nil || outB == rec {
+			r.Case("")
+			continue
+		}
+		cls := fmt.Sprintf("marker-key-probe:%s:%s", v.where, v.key)
+		r.Class(cls)
+		res, _, rerr, pan := e.resolve(outB, outM, cfg)
+		sig := fmt.Sprintf("roundtrip:data-batch-with-marker-key:%s-metadata:%s", v.where, v.key)
+		if v.where == "schema" && !withBatchMeta {
+			sig += ":batch-without-own-metadata"
+		}
+		switch {
+		case pan != "":
+			w.Err = "panic: " + pan
+			r.Violation(sig, "ResolveExternalLocation panicked on its own upload", w)
+		case rerr != nil:
+			w.Err = rerr.Error()
+			w.OriginalIPC = gen.B64(gen.IPCBytes(schema, rec))
+			r.Violation(sig, "a data batch (rows > 0) externalized by the library does not resolve: it is misread as a log / pointer batch because of a metadata key", w)
+		case canonFull(res) != want:
+			w.Resolved = canonFull(res)
+			r.Violation(sig, "resolve(externalize(b)) != b", w)
+		default:
+			r.Class(cls + ":round-trips")
+		}
+		r.Case("markerprobe|" + w.Compression + "|" + w.Schema)
+		if loc, ok := metaGet(outM, vgirpc.MetaLocation); ok {
+			e.st.del(loc)
+		}
+	}
+}
+
+// ---------------------------------------------------------------------------
 // Arm B: hand-built fetched streams
 
 const (
@@ -876,6 +949,7 @@ func main() {
 	r.Require("externalized-at-threshold", "externalized-above-threshold", "inline-below-threshold", "externalized-zstd", "externalized-plain",
 		"externalized-with-custom-metadata", "pointer-carries-sha256",
 		"stream-with-nested-pointer", "stream-logs-only", "stream-empty", "stream-one-data", "stream-log-after-data", "stream-log-before-data",
+		"marker-key-probe:batch:vgi_rpc.log_level", "marker-key-probe:batch:vgi_rpc.location", "marker-key-probe:schema:vgi_rpc.log_level",
 		"schema-metadata:log-after-data", "schema-metadata:no-data", "schema-metadata:pointer-after-data",
 		"tamper-refused:substitute-valid-stream", "tamper-refused:wrong-sha-one-digit", "tamper-refused:bytes", "missing-sha-resolves", "refused-by-checksum")
 	r.Assume("net/http + httptest on loopback deliver the stored bytes and Content-Encoding header unchanged")
@@ -896,6 +970,7 @@ func main() {
 	armStreams(e, r.N(1, 24))
 	t2 := time.Now()
 	armTamper(e, r.N(300, 12000))
+	armMarkerProbe(e, r.N(280, 2800))
 	r.Set("arm_wall_s", map[string]float64{"roundtrip": t1.Sub(t0).Seconds(), "streams": t2.Sub(t1).Seconds(), "tamper": time.Since(t2).Seconds()})
 
 	st.mu.Lock()
